@@ -4,6 +4,7 @@
 pub mod arena;
 pub mod boxmodel;
 pub mod coll;
+pub mod crossarena;
 pub mod decoders;
 pub mod env;
 pub mod grid;
